@@ -268,4 +268,155 @@ theorem extract_superset_doc (ctx : Ctx) (d : Nat) (ci : Bool) (r : Rx)
   obtain ⟨⟨_, hj⟩, hin, _⟩ := Rx.ext_ok ci (ctx.text false d) r i j hm
   exact Lit.inSpan_semB ctx d _ (Rx.extract_wf (!ci) r) i j hj hin
 
+
+/-! ### the extracted tree as a match tree -/
+
+mutual
+/-- the match tree `P` is the literal tree `lit` with iterators attached (content leaves) -/
+def Corr : Lit → MT → Prop
+  | .brute, .brute _ _ => True
+  | .none, .none => True
+  | .sub pat cs, .sub s => s.fileName = false ∧ s.caseSens = cs ∧ s.pat = leafPat pat cs
+  | .and ch, .and _ mch => CorrAll ch mch
+  | .andLine ch, .andLine _ _ mch => CorrAll ch mch
+  | .or ch, .or _ mch => CorrAll ch mch
+  | _, _ => False
+def CorrAll : List Lit → MTs → Prop
+  | [], .nil => True
+  | c :: cs, .cons m ms => Corr c m ∧ CorrAll cs ms
+  | _, _ => False
+end
+
+theorem corr_lc (ctx : Ctx) (d : Nat) (lit : Lit) (mt : MT) (h : Corr lit mt) :
+    lcOfStat ctx d mt.stat = lit.lc ctx d := by
+  cases lit <;> cases mt <;> simp only [Corr] at h <;> try (simp [MT.stat, lcOfStat, Lit.lc])
+  rename_i pat cs s
+  obtain ⟨h1, h2, h3⟩ := h
+  simp [h1, h2, h3]
+
+theorem corrAll_lineCands (ctx : Ctx) (d : Nat) : ∀ (ch : List Lit) (mch : MTs), CorrAll ch mch →
+    lineCandsOfStats ctx d (MTs.stats mch) = Lit.lineCands ctx d ch
+  | [], .nil, _ => rfl
+  | [], .cons _ _, h => by simp [CorrAll] at h
+  | _ :: _, .nil, h => by simp [CorrAll] at h
+  | c :: cs, .cons m ms, h => by
+    simp only [CorrAll] at h
+    simp only [MTs.stats, lineCandsOfStats, Lit.lineCands, corr_lc ctx d c m h.1, corrAll_lineCands ctx d cs ms h.2]
+    cases Lit.lc ctx d c <;> rfl
+
+mutual
+theorem corr_sem (ctx : Ctx) (L d : Nat) : (lit : Lit) → (mt : MT) → Corr lit mt → mt.OkF ctx L →
+    semF ctx d mt = lit.semB ctx d
+  | .brute, .brute _ _, _, _ => rfl
+  | .none, .none, _, _ => rfl
+  | .sub pat cs, .sub s, h, hok => by
+    obtain ⟨h1, h2, h3⟩ := h
+    simp only [semF, MT.sem, Lit.semB]
+    rw [subSemX_eq_occurs ctx L s hok d, h1, h2, h3]
+  | .and ch, .and _ mch, h, hok => by
+    simp only [semF, MT.sem, Lit.semB]; exact corrAll_semAll ctx L d ch mch h hok
+  | .or ch, .or _ mch, h, hok => by
+    simp only [semF, MT.sem, Lit.semB]; exact corrAll_semAny ctx L d ch mch h hok
+  | .andLine ch, .andLine _ _ mch, h, hok => by
+    have a := corrAll_semAll ctx L d ch mch h hok.1
+    simp only [semAllF] at a
+    simp only [semF, MT.sem, Lit.semB, a, lineSemC, corrAll_lineCands ctx d ch mch h]
+  | .brute, .doc _ _ _ _, h, _ => by simp [Corr] at h
+  | .brute, .none, h, _ => by simp [Corr] at h
+  | .brute, .re _ _ _ _ _ _ _, h, _ => by simp [Corr] at h
+  | .brute, .sub _, h, _ => by simp [Corr] at h
+  | .brute, .and _ _, h, _ => by simp [Corr] at h
+  | .brute, .andLine _ _ _, h, _ => by simp [Corr] at h
+  | .brute, .or _ _, h, _ => by simp [Corr] at h
+  | .brute, .not _ _, h, _ => by simp [Corr] at h
+  | .brute, .fileName _ _, h, _ => by simp [Corr] at h
+  | .brute, .boost _ _, h, _ => by simp [Corr] at h
+  | .brute, .noVisit _, h, _ => by simp [Corr] at h
+  | .none, .doc _ _ _ _, h, _ => by simp [Corr] at h
+  | .none, .brute _ _, h, _ => by simp [Corr] at h
+  | .none, .re _ _ _ _ _ _ _, h, _ => by simp [Corr] at h
+  | .none, .sub _, h, _ => by simp [Corr] at h
+  | .none, .and _ _, h, _ => by simp [Corr] at h
+  | .none, .andLine _ _ _, h, _ => by simp [Corr] at h
+  | .none, .or _ _, h, _ => by simp [Corr] at h
+  | .none, .not _ _, h, _ => by simp [Corr] at h
+  | .none, .fileName _ _, h, _ => by simp [Corr] at h
+  | .none, .boost _ _, h, _ => by simp [Corr] at h
+  | .none, .noVisit _, h, _ => by simp [Corr] at h
+  | .sub _ _, .doc _ _ _ _, h, _ => by simp [Corr] at h
+  | .sub _ _, .brute _ _, h, _ => by simp [Corr] at h
+  | .sub _ _, .none, h, _ => by simp [Corr] at h
+  | .sub _ _, .re _ _ _ _ _ _ _, h, _ => by simp [Corr] at h
+  | .sub _ _, .and _ _, h, _ => by simp [Corr] at h
+  | .sub _ _, .andLine _ _ _, h, _ => by simp [Corr] at h
+  | .sub _ _, .or _ _, h, _ => by simp [Corr] at h
+  | .sub _ _, .not _ _, h, _ => by simp [Corr] at h
+  | .sub _ _, .fileName _ _, h, _ => by simp [Corr] at h
+  | .sub _ _, .boost _ _, h, _ => by simp [Corr] at h
+  | .sub _ _, .noVisit _, h, _ => by simp [Corr] at h
+  | .and _, .doc _ _ _ _, h, _ => by simp [Corr] at h
+  | .and _, .brute _ _, h, _ => by simp [Corr] at h
+  | .and _, .none, h, _ => by simp [Corr] at h
+  | .and _, .re _ _ _ _ _ _ _, h, _ => by simp [Corr] at h
+  | .and _, .sub _, h, _ => by simp [Corr] at h
+  | .and _, .andLine _ _ _, h, _ => by simp [Corr] at h
+  | .and _, .or _ _, h, _ => by simp [Corr] at h
+  | .and _, .not _ _, h, _ => by simp [Corr] at h
+  | .and _, .fileName _ _, h, _ => by simp [Corr] at h
+  | .and _, .boost _ _, h, _ => by simp [Corr] at h
+  | .and _, .noVisit _, h, _ => by simp [Corr] at h
+  | .andLine _, .doc _ _ _ _, h, _ => by simp [Corr] at h
+  | .andLine _, .brute _ _, h, _ => by simp [Corr] at h
+  | .andLine _, .none, h, _ => by simp [Corr] at h
+  | .andLine _, .re _ _ _ _ _ _ _, h, _ => by simp [Corr] at h
+  | .andLine _, .sub _, h, _ => by simp [Corr] at h
+  | .andLine _, .and _ _, h, _ => by simp [Corr] at h
+  | .andLine _, .or _ _, h, _ => by simp [Corr] at h
+  | .andLine _, .not _ _, h, _ => by simp [Corr] at h
+  | .andLine _, .fileName _ _, h, _ => by simp [Corr] at h
+  | .andLine _, .boost _ _, h, _ => by simp [Corr] at h
+  | .andLine _, .noVisit _, h, _ => by simp [Corr] at h
+  | .or _, .doc _ _ _ _, h, _ => by simp [Corr] at h
+  | .or _, .brute _ _, h, _ => by simp [Corr] at h
+  | .or _, .none, h, _ => by simp [Corr] at h
+  | .or _, .re _ _ _ _ _ _ _, h, _ => by simp [Corr] at h
+  | .or _, .sub _, h, _ => by simp [Corr] at h
+  | .or _, .and _ _, h, _ => by simp [Corr] at h
+  | .or _, .andLine _ _ _, h, _ => by simp [Corr] at h
+  | .or _, .not _ _, h, _ => by simp [Corr] at h
+  | .or _, .fileName _ _, h, _ => by simp [Corr] at h
+  | .or _, .boost _ _, h, _ => by simp [Corr] at h
+  | .or _, .noVisit _, h, _ => by simp [Corr] at h
+theorem corrAll_semAll (ctx : Ctx) (L d : Nat) : (ch : List Lit) → (mch : MTs) → CorrAll ch mch →
+    MTs.OkFAll ctx L mch → semAllF ctx d mch = Lit.semAllB ctx d ch
+  | [], .nil, _, _ => rfl
+  | [], .cons _ _, h, _ => by simp [CorrAll] at h
+  | _ :: _, .nil, h, _ => by simp [CorrAll] at h
+  | c :: cs, .cons m ms, h, hok => by
+    simp only [CorrAll] at h
+    have a := corr_sem ctx L d c m h.1 hok.1
+    have b := corrAll_semAll ctx L d cs ms h.2 hok.2
+    simp only [semF, semAllF] at a b
+    simp only [semAllF, MTs.semAll, Lit.semAllB, a, b]
+theorem corrAll_semAny (ctx : Ctx) (L d : Nat) : (ch : List Lit) → (mch : MTs) → CorrAll ch mch →
+    MTs.OkFAll ctx L mch → semAnyF ctx d mch = Lit.semAnyB ctx d ch
+  | [], .nil, _, _ => rfl
+  | [], .cons _ _, h, _ => by simp [CorrAll] at h
+  | _ :: _, .nil, h, _ => by simp [CorrAll] at h
+  | c :: cs, .cons m ms, h, hok => by
+    simp only [CorrAll] at h
+    have a := corr_sem ctx L d c m h.1 hok.1
+    have b := corrAll_semAny ctx L d cs ms h.2 hok.2
+    simp only [semF, semAnyF] at a b
+    simp only [semAnyF, MTs.semAny, Lit.semAnyB, a, b]
+end
+
+/-- **the pre-filter is sound**: on every document whose content the regexp matches, the match tree that carries the
+    extracted literal tree evaluates to true -/
+theorem prefilter_sound (ctx : Ctx) (L d : Nat) (ci : Bool) (r : Rx) (P : MT)
+    (hc : Corr (r.extract (!ci)).tree P) (hok : P.OkF ctx L) (hm : r.matchesText ci (ctx.text false d)) :
+    semF ctx d P = true := by
+  rw [corr_sem ctx L d _ P hc hok]
+  exact extract_superset_doc ctx d ci r hm
+
 end ZoektModel.C01
